@@ -6,6 +6,7 @@ import (
 	"go/token"
 	"go/types"
 	"math/big"
+	"strings"
 
 	"golang.org/x/tools/go/ssa"
 )
@@ -143,12 +144,14 @@ func (ex *Exec) wellFormed(st *State, v Value, pc *Term) {
 		if x.Kind == PHeap && !x.Ref.lit && ex.noAlloc == 0 {
 			al := st.get("alloc", SArr(SRef, SBool))
 			ex.assume(pc, Or(Eq(x.Ref, RefNil()), Select(al, x.Ref)))
+			ex.initiallyAllocated(x.Ref, pc)
 		}
 	case SliceV:
 		if x.St == StDyn && !x.ID.lit {
 			al := st.get("alloc", SArr(SRef, SBool))
 			if ex.noAlloc == 0 {
 				ex.assume(pc, Or(Eq(x.ID, RefNil()), Select(al, x.ID)))
+				ex.initiallyAllocated(x.ID, pc)
 			}
 			ex.assume(pc, And(BVSle(BV(0, 64), x.Len), BVSle(x.Len, x.Cap), BVSle(x.Cap, BV(1<<40, 64)),
 				BVSle(BV(0, 64), x.Off), BVSle(x.Off, BV(1<<40, 64))))
@@ -177,6 +180,40 @@ func (ex *Exec) wellFormed(st *State, v Value, pc *Term) {
 			ex.wellFormed(st, f, pc)
 		}
 	}
+}
+
+// initiallyAllocated: a reference read from memory is either a value the
+// function stored there or the value the location held on entry; the entry
+// heap only contains references that were allocated on entry (so they differ
+// from everything the function allocates itself).
+func (ex *Exec) initiallyAllocated(t *Term, pc *Term) {
+	if ex.alloc0 == nil || t.op != "select" || t.sort != SRef {
+		return
+	}
+	idx := t.args[1]
+	seen := map[int]bool{}
+	var walk func(a *Term, depth int)
+	walk = func(a *Term, depth int) {
+		if seen[a.id] || depth > 12 {
+			return
+		}
+		seen[a.id] = true
+		switch {
+		case a.leaf && (strings.HasPrefix(a.op, "H0|") || strings.HasPrefix(a.op, "H0:")):
+			v0 := Select(a, idx)
+			if v0.sort == SRef && idx.sort == SRef {
+				// (only for objects that existed on entry: the fields of objects
+				// created by callees are constrained by their contracts instead)
+				ex.assume(pc, Or(Not(Select(ex.alloc0, idx)), Eq(v0, RefNil()), Select(ex.alloc0, v0)))
+			}
+		case a.op == "store":
+			walk(a.args[0], depth+1)
+		case a.op == "ite":
+			walk(a.args[1], depth+1)
+			walk(a.args[2], depth+1)
+		}
+	}
+	walk(t.args[0], 0)
 }
 
 func (ex *Exec) initGlobal(c *Cell, pc *Term) Value {
